@@ -12,7 +12,7 @@ from lib.tlc import RawTla
 
 KINDS = {
     # kind: (tick seconds, uses ephemeris expectations)
-    "kepler": 10.0, "j2": 10.0, "none": 10.0, "sgp4": 10.0, "cw": 10.0, "keplernum": 15.0, "ephem": 15.0,
+    "kepler": 10.0, "j2": 10.0, "none": 10.0, "sgp4": 10.0, "cw": 10.0, "keplernum": 5.0, "ephem": 15.0,
 }
 
 
@@ -92,7 +92,7 @@ def run(ctx):
     ctx.exhaustive = False
     ctx.assumptions += [
         "states are compared with a direct propagation from a fresh copy: 1e-9 relative for analytical propagators, "
-        "5 mm / 0.05 mm/s for the numerical propagator (interpolation error), bit-level for ephemerides",
+        "2 mm + |v| x 2 us / 0.05 mm/s for the numerical propagator (20 s RK4 steps; float-MJD resolution of the re-sampling), 1e-6 m for ephemerides",
         "KeplerNum replays are a seeded sample of the TLC histories in the quick tier (each costs tens of RK4 steps)",
         "interleaving of partially consumed generators is not demanded (sequences of completed calls only)",
     ]
